@@ -188,6 +188,61 @@ Section Oracles.
     | S j, _ :: t => committed_at cur t j
     | _, _ => cur
     end.
+
+  (** ---------------------------------------------------------------------------------- *)
+  (** the two stages of the executor.  Blocks handed over by consensus enter a pipeline
+      ([ExecuteBlock] -> preBlockC -> signature stage -> blockC -> execution stage); several
+      blocks can be queued when consensus is faster than execution (batch delivery, catch-up).
+      A block is its list of questions (the IBTP transactions with their proofs) and the state it
+      commits.  The code as it stands asks the pool in the EXECUTION stage, after every earlier
+      block has committed; [d_verify_at_enqueue] (mutation class, [false] for the code as it
+      stands): the questions are answered when the block ENTERS the pipeline, from whatever
+      state is committed at that moment. *)
+  Record qcfg := { d_verify_at_enqueue : bool }.
+  Record qblock := { qb_checks : list (ibtp * proofdata); qb_after : pstate }.
+  Inductive qevent := QEnqueue (b : qblock) | QExecute.
+  Record qnode := { q_committed : pstate; q_queue : list (qblock * list vres) }.
+
+  Definition answers_of (st : pstate) (b : qblock) : list vres :=
+    map (fun q : ibtp * proofdata => verify_proof st (fst q) (snd q)) (qb_checks b).
+
+  Definition q_step (c : qcfg) (n : qnode) (e : qevent) : qnode * option (pstate * list vres) :=
+    match e with
+    | QEnqueue b =>
+        ({| q_committed := q_committed n; q_queue := q_queue n ++ [(b, answers_of (q_committed n) b)] |}, None)
+    | QExecute =>
+        match q_queue n with
+        | [] => (n, None)
+        | (b, early) :: t =>
+            ({| q_committed := qb_after b; q_queue := t |},
+             Some (q_committed n, if d_verify_at_enqueue c then early else answers_of (q_committed n) b))
+        end
+    end.
+
+  (** the answers of the executed blocks, in execution order, each with the state committed by the
+      block executed before it *)
+  Fixpoint q_run (c : qcfg) (n : qnode) (evs : list qevent) : list (pstate * list vres) :=
+    match evs with
+    | [] => []
+    | e :: t => let '(n', a) := q_step c n e in
+                match a with Some x => x :: q_run c n' t | None => q_run c n' t end
+    end.
+
+  (** lock-step execution of a list of blocks: every block is verified against the state committed
+      by its predecessor *)
+  Fixpoint lockstep (cur : pstate) (bs : list qblock) : list (pstate * list vres) :=
+    match bs with
+    | [] => []
+    | b :: t => (cur, answers_of cur b) :: lockstep (qb_after b) t
+    end.
+
+  (** the blocks a history of pipeline events executes, in order (queue discipline only) *)
+  Fixpoint executed (q : list qblock) (evs : list qevent) : list qblock :=
+    match evs with
+    | [] => []
+    | QEnqueue b :: t => executed (q ++ [b]) t
+    | QExecute :: t => match q with [] => executed [] t | b :: r => b :: executed r t end
+    end.
 End Oracles.
 
 (** ------------------------------------------------------------------------------------ *)
@@ -265,13 +320,14 @@ Definition c_recover (s d : N) : option N :=
 Definition c_verify := verify_proof c_H c_digest c_rule c_recover.
 
 (** "the CURRENT MASTER rule accepts": the rule carrying the Master flag in the chain's rule list
-    (not the selection function of the proof pool) answers true on these bytes.  Used as the
+    (not the selection function of the proof pool) is AVAILABLE (a logged-out chain keeps the flag
+    on its unbound rule) and answers true on these bytes.  Used as the
     property predicate on implementation traces: an accepted locally-originated IBTP must satisfy it. *)
 Definition master_accepts (st : pstate) (ib : ibtp) (pd : proofdata) : bool :=
   let '(b, c) := origin ib in
   match pd, ps_chains st c, find r_master (ps_rules st c) with
   | PdBytes p _, Some app, Some r =>
-      (c_H p =? ib_proofhash ib) &&
+      (c_H p =? ib_proofhash ib) && r_available r &&
       match c_rule (r_addr r) c p (ib_id ib) (a_trust app) with Some true => true | _ => false end
   | _, _, _ => false
   end.
